@@ -20,7 +20,8 @@ RULE = (
     "smoothed noise, x1e3 rescaled, rendered emulsions} on {Cartesian d=1..3 shapes 1..8 with "
     "per-axis spacing U(0.3,2.5), polar, spherical, cylindrical +- periodic z, N 1..12} x "
     "threshold {0.5,0,auto,extrema,mean,otsu} x minimal_radius {-inf,0,0.5,2} x modes 0..4 x "
-    "width {None,0,0.7,2} x refine x refine_args {default, automatic, fitted, both}; render = "
+    "width {None,0,0.7,2} x refine x refine_args {default, automatic, fitted, both} x "
+    "num_processes {1, occasionally 2}; render = "
     "droplets of every class on compatible grids incl. exactly on cell centres; track = time "
     "courses incl. empty frames, both methods; storage/trackers = from_storage and both tracker "
     "handle() methods driven directly; documented = invalid requests that must raise the "
@@ -128,6 +129,8 @@ def locate_opts(rng, dim):
     ra = int(rng.integers(0, 4))
     o["refine_args"] = [None, {"vmin": None, "vmax": None}, {"adjust_values": True},
                         {"vmin": None, "vmax": None, "adjust_values": True}][ra]
+    if o["refine"] and rng.random() < 0.05:
+        o["num_processes"] = 2  # worker processes are a documented option as well
     return o
 
 
